@@ -47,7 +47,7 @@ class C08(Prop):
     assumptions = ["instance names are unique per definition in generated designs, so endpoints can be named "
                    "by instance-name paths",
                    "a leaf is a definition without children and without cables (Definition.is_leaf)"]
-    runs = {"quick": 3000, "thorough": 80000}
+    runs = {"quick": 8000, "thorough": 200000}
 
     def configure(self, rng, tier):
         cfg = hier_config(rng)
